@@ -106,7 +106,7 @@ fn fri_verify_layers(
     eval_points: Vec<Felt>,
     step_sizes: Vec<Felt>,
     mut queries: Vec<FriLayerQuery>,
-) -> Vec<FriLayerQuery> {
+) -> Result<Vec<FriLayerQuery>, Error> {
     let len: usize = n_layers.to_biguint().try_into().unwrap();
 
     for i in 0..len {
@@ -130,17 +130,18 @@ fn fri_verify_layers(
             compute_next_layer(&mut queries, &mut target_layer_witness_leaves, params).unwrap();
 
         // Table decommitment.
-        let _ = table_decommit(
+        table_decommit(
             target_commitment,
             &verify_indices,
             TableDecommitment { values: verify_y_values },
             target_layer_witness_table_withness,
-        );
+        )
+        .map_err(|_| Error::LayerDecommitmentError)?;
 
         queries = next_queries;
     }
 
-    queries
+    Ok(queries)
 }
 
 // FRI protocol component decommitment.
@@ -172,7 +173,7 @@ pub fn fri_verify(
         commitment.eval_points,
         commitment.config.fri_step_sizes[1..commitment.config.fri_step_sizes.len()].to_vec(),
         fri_queries,
-    );
+    )?;
 
     if Felt::from(commitment.last_layer_coefficients.len())
         != Felt::TWO.pow_felt(&commitment.config.log_last_layer_degree_bound)
@@ -199,6 +200,9 @@ pub enum Error {
 
     #[error("Last layer verification error")]
     LastLayerVerificationError,
+
+    #[error("Layer table decommitment error")]
+    LayerDecommitmentError,
 }
 
 #[cfg(not(feature = "std"))]
@@ -215,4 +219,7 @@ pub enum Error {
 
     #[error("Last layer verification error")]
     LastLayerVerificationError,
+
+    #[error("Layer table decommitment error")]
+    LayerDecommitmentError,
 }
